@@ -457,8 +457,29 @@ def effectiveFromEncoding (fromEncoding fromEncodingOld : Option Name) : Option 
   | some e => if e.isEmpty then fromEncodingOld else some e
   | none => fromEncodingOld
 
+/-- the `markup` argument of the constructor: the text/bytes themselves, or a file-like object whose
+    `.read()` returns them (open text/binary file, `io.StringIO`/`io.BytesIO`, any object with `read`) -/
+inductive MarkupArg where
+  | direct (m : Markup)
+  | fileLike (m : Markup)
+deriving Repr
+
+def MarkupArg.content : MarkupArg → Markup
+  | .direct m => m
+  | .fileLike m => m
+
 /-- `BeautifulSoup(markup, "html.parser", from_encoding=…, fromEncoding=…, exclude_encodings=…)` up to the
-    feed (bs4/__init__.py:334-342, 462-469). -/
+    feed, in the order of the code: (1) the deprecated keyword (bs4/__init__.py:334-336); (2) `from_encoding`
+    is dropped when the ARGUMENT is a str (:338-342 — a file-like object is not a str at this point, so
+    `from_encoding` survives); (3) a file-like argument is read (:439-440); (4) `prepare_markup` (:462-469). -/
+def constructorPrepareArg (C : Codecs) (arg : MarkupArg) (fromEncoding fromEncodingOld : Option Name) (exclude : List Name) : Prepared :=
+  let fe := effectiveFromEncoding fromEncoding fromEncodingOld                 -- (1)
+  let fe := match arg with                                                     -- (2)
+    | .direct (.str _) => none
+    | _ => fe
+  prepareMarkup C arg.content fe exclude                                       -- (3), (4)
+
+/-- the constructor called with the text/bytes themselves -/
 def constructorPrepare (C : Codecs) (m : Markup) (fromEncoding fromEncodingOld : Option Name) (exclude : List Name) : Prepared :=
   prepareMarkup C m (effectiveFromEncoding fromEncoding fromEncodingOld) exclude
 
